@@ -167,7 +167,7 @@ Print Assumptions C16_failed_reload_start_events.
 
 Example C16_reload_fail_only_restart_failed_nonvacuous :
   snd (step (final init [OStart quirk_new])
-            (ORestart 0 (mkCfg false false false [] [mkCb 0 false; mkCb 1 true] [] [] [] [] []))) = RInst false 0.
+            (ORestart 0 (mkCfg false false false [] [mkCb 0 false; mkCb 1 true] [] [] [] [] [] false))) = RInst false 0.
 Proof. vm_compute. reflexivity. Qed.
 
 (* restart and restart-failed callbacks run only in a reload of their own instance *)
@@ -309,3 +309,208 @@ Example C16_wait_nonvacuous :
   snd (step (final init [OStart quirk_new; ORestart 0 quirk_new]) (OWait 0)) = RBool false /\
   snd (step (final init [OStart quirk_new; ORestart 0 quirk_new; OStopAll]) (OWait 0)) = RBool true.
 Proof. vm_compute. split; reflexivity. Qed.
+
+(* ================================================================== deepening *)
+(* ---- process shutdown against concurrent Instance.Stop ---- *)
+(* [conc_step true]: allShutdownCallbacks as coded (instancesMu held for the whole loop) and the
+   tail of Instance.Stop (Lock; instances = append(instances[:j], instances[j+1:]...); Unlock) as
+   interleaved atomic steps over the SHARED backing array of [instances] (the splice shifts the
+   array in place; the loop reads cell idx at iteration idx).  For every duplicate-free instance
+   list l, every sequence pre of Stops that complete before the signal handler takes the lock
+   (m1: the list at that moment = the instances live at the first signal) and EVERY schedule post
+   afterwards (iterations, Stops trying to get in at any point, the release, Stops going on):
+   what the handler has run is always a prefix, instance by instance, of that live list, and when
+   it is through every live instance's shutdown and final-shutdown callbacks have run exactly
+   once, in order — whatever Stops interleave. *)
+Theorem C16_shutdown_once_under_concurrent_stop :
+  forall l pre post m1 m',
+  NoDup (ids l) ->
+  forallb is_splice pre = true ->
+  conc_run true (conc_init l) pre = Some m1 ->
+  conc_run true m1 (CAcquire :: post) = Some m' ->
+  sh_out m' = all_shutdown (firstn (sh_idx m') (live_of m1)) /\
+  (sh_done m' = true ->
+   sh_out m' = all_shutdown (live_of m1) /\
+   forall x, In x (live_of m1) ->
+     proj KShutdown (i_id x) (sh_out m') = labels (c_shutdown (i_cfg x)) /\
+     proj KFinal (i_id x) (sh_out m') = labels (c_final (i_cfg x))).
+Proof. exact shutdown_once_under_concurrent_stop. Qed.
+Print Assumptions C16_shutdown_once_under_concurrent_stop.
+
+Example C16_shutdown_once_under_concurrent_stop_nonvacuous :
+  (* one Stop before the signal, two trying to get in during the loop, one after it *)
+  match conc_run true (conc_init conc_three) [CSplice 1] with
+  | Some m1 =>
+      match conc_run true m1 [CAcquire; CIter; CSplice 0; CIter; CSplice 2; CRelease; CSplice 2] with
+      | None => True   (* the Stops are blocked while the lock is held ... *)
+      | Some _ => False
+      end /\
+      match conc_run true m1 [CAcquire; CIter; CIter; CRelease; CSplice 2] with
+      | Some m' => sh_done m' = true /\ map i_id (live_of m1) = [0; 2] /\ map i_id (live_of m') = [0] /\
+                   sh_out m' = [ECb KShutdown 0 0; ECb KFinal 0 0; ECb KShutdown 2 0; ECb KFinal 2 0]
+      | None => False
+      end
+  | None => False
+  end.
+Proof. vm_compute. repeat split; reflexivity. Qed.
+
+(* the splice of the concurrent Stop is the sequential model's [remove_id] on the live list (so
+   the array model and the list model of [step] agree on what "live" means), and it is blocked
+   exactly while the handler holds the lock *)
+Theorem C16_concurrent_splice_is_sequential_stop :
+  forall w m h m',
+  sh_len m <= length (sh_arr m) ->
+  conc_step w m (CSplice h) = Some m' ->
+  live_of m' = remove_id h (live_of m) /\ sh_len m' <= length (sh_arr m') /\
+  sh_n m' = sh_n m /\ sh_out m' = sh_out m /\ sh_idx m' = sh_idx m /\ sh_done m' = sh_done m /\ sh_lock m' = false.
+Proof. exact splice_step. Qed.
+Print Assumptions C16_concurrent_splice_is_sequential_stop.
+
+(* Stops cannot starve the handler: once it holds the lock it can run to the end *)
+Theorem C16_shutdown_handler_can_finish :
+  forall m0, sh_len m0 <= length (sh_arr m0) -> forall k m,
+  held m0 m -> sh_done m = false -> k = sh_len m0 - sh_idx m ->
+  exists m', conc_run true m (repeat CIter k ++ [CRelease]) = Some m' /\ sh_done m' = true.
+Proof. exact handler_can_finish. Qed.
+Print Assumptions C16_shutdown_handler_can_finish.
+
+Example C16_shutdown_handler_can_finish_nonvacuous :
+  exists m0 m1, conc_step true (conc_init conc_three) CAcquire = Some m1 /\ held m0 m1 /\
+                sh_len m0 <= length (sh_arr m0) /\ sh_done m1 = false /\ sh_len m0 - sh_idx m1 = 3.
+Proof.
+  eexists. eexists. split; [reflexivity|]. split; [apply (acquire_held (conc_init conc_three)); reflexivity|].
+  vm_compute. repeat split; auto.
+Qed.
+
+(* the statement is false of the variant that copies the slice header under the lock and
+   iterates outside it ([conc_step false]): three live instances, the first one stopped while
+   its callback runs — the second instance's callbacks never run, the third one's run twice *)
+Theorem C16_shutdown_unlocked_snapshot_refuted :
+  exists cs m', conc_run false (conc_init conc_three) cs = Some m' /\ sh_done m' = true /\
+    proj KShutdown 1 (sh_out m') = [] /\ proj KShutdown 2 (sh_out m') = [0; 0] /\
+    proj KFinal 2 (sh_out m') = [0; 0].
+Proof. exact unlocked_snapshot_refuted. Qed.
+Print Assumptions C16_shutdown_unlocked_snapshot_refuted.
+
+(* ---- a server's Stop error (drain timeout) does not fail a reload ---- *)
+(* [restart_body_e]: Instance.Restart with the servers' stop errors and its
+   `err = i.Stop(); if err != nil { return i, err }` written out; [stop_inst_e] is Instance.Stop
+   with `log.Printf("[ERROR] Stopping ...")` per failing server and its `return nil`.  They are
+   what [step] runs: Instance.Stop returns nil whatever its servers return ... *)
+Theorem C16_instance_stop_returns_nil :
+  forall o s, stop_inst_e o s = (let '(s', ev) := stop_inst o s in (s', ev, stop_err_ids (i_srv o), false)).
+Proof. exact stop_inst_e_refines. Qed.
+Print Assumptions C16_instance_stop_returns_nil.
+
+Theorem C16_restart_with_stop_errors_refines :
+  forall o c s, restart_body_e o c s = restart_body o c s.
+Proof. exact restart_body_e_eq. Qed.
+Print Assumptions C16_restart_with_stop_errors_refines.
+
+(* ... so once the old instance's restart callbacks and the start of the new instance have
+   succeeded, the reload succeeds whatever the old servers' Stop calls return (ANY of them may
+   time out): every graceful server of the old instance is stopped (also those after a failing
+   one), ALL its shutdown callbacks run, no restart-failed callback does, the old instance is
+   spliced out of the list and the new one is returned *)
+Theorem C16_stop_error_does_not_fail_reload :
+  forall o c s e2 saved,
+  existsb cb_fail (c_restart (i_cfg o)) = false ->
+  start_plan c (next s) true (i_srv o) (i_id o) = (e2, true, saved) ->
+  exists s' e3,
+    restart_body_e o c s =
+      (s', cb_events KRestart (i_id o) (labels (c_restart (i_cfg o))) ++ e2 ++ e3
+           ++ cb_events KShutdown (i_id o) (labels (c_shutdown (i_cfg o))) ++ [EHook HInstanceStartup (next s)],
+       RInst true (next s)) /\
+    forallb (is_stop_ev (i_id o)) e3 = true /\
+    (forall j sp, In (j, sp) (i_srv o) -> sv_graceful sp = true -> In (EStop (i_id o) j) e3) /\
+    insts s' = remove_id (i_id o) (insts s ++ [mkInst (next s) (i_root o) c saved]).
+Proof. exact stop_error_does_not_fail_reload. Qed.
+Print Assumptions C16_stop_error_does_not_fail_reload.
+
+Example C16_stop_error_does_not_fail_reload_nonvacuous :
+  (* the first of two old servers times out while draining *)
+  let res := step (final init [OStart stop_err_old]) (ORestart 0 quirk_new) in
+  snd res = RInst true 1 /\
+  stop_err_ids (i_srv (mkInst 0 0 stop_err_old [(0, mkSrv 0 true 1 false true); (1, mkSrv 1 true 1 false false)])) = [0] /\
+  stop_ids 0 (snd (fst res)) = [0; 1] /\ proj KShutdown 0 (snd (fst res)) = [0] /\
+  proj KRestartFailed 0 (snd (fst res)) = [] /\ map i_id (insts (fst (fst res))) = [1].
+Proof. vm_compute. repeat split; reflexivity. Qed.
+
+(* ---- a plugin that panics while the configuration is set up ---- *)
+(* casket.Start does not recover: the panic reaches the caller after NewContext only, and the
+   clean-up keyed on startWithListenerFds' [succeeded] flag leaves nothing of the instance *)
+Theorem C16_start_panic_leaves_nothing :
+  forall s c s' ev,
+  step s (OStart c) = (s', ev, RPanic) ->
+  c_setup_panic c = true /\ ev = [ENew (next s)] /\
+  insts s' = insts s /\ known s' = known s /\ serving s' = serving s /\ once s' = once s /\
+  (forall x, wg s' x = wg s x).
+Proof. exact start_panic_leaves_nothing. Qed.
+Print Assumptions C16_start_panic_leaves_nothing.
+
+Theorem C16_restart_never_panics :
+  forall s h c s' ev r, step s (ORestart h c) = (s', ev, r) -> r <> RPanic.
+Proof. exact restart_never_panics. Qed.
+Print Assumptions C16_restart_never_panics.
+
+(* Instance.Restart turns the panic into an error: a failed reload like any other (the old
+   restart callbacks, NewContext of the rejected instance, ALL restart-failed callbacks, the old
+   instance returned, everything as it was) *)
+Theorem C16_reload_panicking_setup_fails :
+  forall s h c o,
+  find_inst h (known s) = Some o ->
+  c_parse_fail c = false -> c_setup_panic c = true ->
+  existsb cb_fail (c_restart (i_cfg o)) = false ->
+  exists s',
+    step s (ORestart h c) =
+      (s', cb_events KRestart h (labels (c_restart (i_cfg o))) ++ [ENew (next s)]
+           ++ cb_events KRestartFailed h (labels (c_rfailed (i_cfg o))), RInst false h) /\
+    insts s' = insts s /\ known s' = known s /\ serving s' = serving s /\ once s' = once s /\
+    (forall x, wg s' x = wg s x).
+Proof. exact reload_panicking_setup_fails. Qed.
+Print Assumptions C16_reload_panicking_setup_fails.
+
+Example C16_panicking_setup_nonvacuous :
+  snd (step init (OStart panic_cfg)) = RPanic /\
+  snd (step (final init [OStart quirk_new]) (ORestart 0 panic_cfg)) = RInst false 0 /\
+  (* the next start gets a fresh instance number; process shutdown runs the live one only *)
+  exec_events (run init [OStart quirk_new; ORestart 0 panic_cfg; OStart panic_cfg; OExecShutdown])
+    = [EHook HShutdown 0; ECb KShutdown 0 0].
+Proof. vm_compute. repeat split; reflexivity. Qed.
+
+(* ---- a reload is never mistaken for a first start ---- *)
+(* whatever the old instance looks like (no server at all, only non-graceful servers, listeners
+   without a file descriptor: restartFds is an EMPTY map, never nil), a reload — successful or
+   not — runs no first-startup callback of anyone and no OnStartupComplete *)
+Theorem C16_reload_never_first_start :
+  forall s h c s' ev r,
+  step s (ORestart h c) = (s', ev, r) ->
+  (forall i l, ~ In (ECb KFirst i l) ev) /\ (forall i j, ~ In (EAfter i j) ev).
+Proof. exact reload_never_first_start. Qed.
+Print Assumptions C16_reload_never_first_start.
+
+(* when nothing can be handed over, every listener of the new instance is obtained exactly as in
+   a first start ([listen_loop false []]) — and that is the ONLY thing the reload shares with
+   one: the complete event list *)
+Theorem C16_reload_without_inheritable_listener :
+  forall s h c s' ev n o,
+  step s (ORestart h c) = (s', ev, RInst true n) ->
+  find_inst h (known s) = Some o ->
+  (forall a, fds_lookup a (i_srv o) = None) ->
+  exists li saved e3,
+    n = next s /\ listen_loop false [] 0 n 0 (c_servers c) = (li, true, saved) /\
+    forallb (is_listen_ev n 0) li = true /\ forallb (is_stop_ev h) e3 = true /\
+    ev = cb_events KRestart h (labels (c_restart (i_cfg o)))
+         ++ (ENew n :: EMake n :: cb_events KStartup n (labels (c_startup c)) ++ li ++ serve_events n saved)
+         ++ e3 ++ cb_events KShutdown h (labels (c_shutdown (i_cfg o))) ++ [EHook HInstanceStartup n].
+Proof. exact reload_without_inheritable_listener. Qed.
+Print Assumptions C16_reload_without_inheritable_listener.
+
+Example C16_reload_without_inheritable_listener_nonvacuous :
+  (* old instance: a graceful server on a listener without File() and a non-graceful one *)
+  let res := step (final init [OStart nofd_old]) (ORestart 0 nofd_old) in
+  snd res = RInst true 1 /\ proj KFirst 1 (snd (fst res)) = [] /\ proj KStartup 1 (snd (fst res)) = [0] /\
+  In (EListen 1 0 true) (snd (fst res)) /\ In (EListen 1 1 true) (snd (fst res)) /\
+  fds_lookup 0 [(0, mkSrv 0 true 0 false false); (1, mkSrv 1 false 1 false false)] = None /\
+  fds_lookup 1 [(0, mkSrv 0 true 0 false false); (1, mkSrv 1 false 1 false false)] = None.
+Proof. vm_compute. repeat split; auto 20. Qed.
